@@ -478,6 +478,7 @@ func (g *genState) fillPacket(k *Packet, label string, refs []string) {
 			if len(ts) > 0 {
 				lenF = &Field{Kind: KLen, Name: g.fname(label + "_len"), Type: rapid.SampledFrom(ts).Draw(t, label+"_lentype"),
 					Target: target.Name, AttrPrefixed: rapid.Bool().Draw(t, label+"_lenpre"), Doc: g.doc(label + "_len")}
+				g.typeFromMeta(label+"_len", lenF)
 			}
 		}
 	}
@@ -506,7 +507,8 @@ func (g *genState) fillPacket(k *Packet, label string, refs []string) {
 			sf := &Field{Kind: KSum, Name: g.fname(label + "_sum"), Type: rapid.SampledFrom(ts).Draw(t, label+"_sumtype"),
 				AttrPrefixed: rapid.Bool().Draw(t, label+"_sumpre"), Doc: g.doc(label + "_sum")}
 			// one algorithm name per value type: a registered service has one result type
-			sf.Alg = "CK" + strings.ToUpper(sf.Type)
+			sf.Alg = g.algName(label+"_sum", sf.Type)
+			g.typeFromMeta(label+"_sum", sf)
 			pos := len(out)
 			if rapid.IntRange(0, 3).Draw(t, label+"_sumlast") == 0 {
 				pos = rapid.IntRange(0, len(out)).Draw(t, label+"_sumpos")
@@ -522,7 +524,7 @@ func (g *genState) fillPacket(k *Packet, label string, refs []string) {
 					}
 				}
 				sf2 := &Field{Kind: KSum, Name: g.fname(label + "_sum2"), Type: rapid.SampledFrom(ts2).Draw(t, label+"_sum2type"), AttrPrefixed: rapid.Bool().Draw(t, label+"_sum2pre")}
-				sf2.Alg = "CK" + strings.ToUpper(sf2.Type)
+				sf2.Alg = g.algName(label+"_sum2", sf2.Type)
 				if !cfg.avoid("sum:shared-alg") && rapid.IntRange(0, 2).Draw(t, label+"_sum2shared") == 0 {
 					// one algorithm name on two fields of different width: a registered service has
 					// one result type, so this name is never registered by the drivers
@@ -598,6 +600,21 @@ func (g *genState) anyField(label string, refs []string, depth int) *Field {
 			}
 			inl.Fields = append(inl.Fields, sf)
 		}
+		if !cfg.NoAttrFields && !cfg.avoid("sum") && !cfg.avoid("sum:nested") && !cfg.avoid("sum:inline") && rapid.IntRange(0, 7).Draw(t, label+"_inl_sum") == 0 {
+			// a checksum field inside an inline object (only the spelling behind the name exists there)
+			var ts []string
+			for _, u := range intTypes {
+				if !cfg.avoid("sum:" + u) {
+					ts = append(ts, u)
+				}
+			}
+			if len(ts) > 0 {
+				sf := &Field{Kind: KSum, Name: g.fname(label + "_inlsum"), Type: rapid.SampledFrom(ts).Draw(t, label+"_inlsumtype")}
+				sf.Alg = g.algName(label+"_inlsum", sf.Type)
+				g.typeFromMeta(label+"_inlsum", sf)
+				inl.Fields = append(inl.Fields, sf)
+			}
+		}
 		f := &Field{Kind: KInline, Name: name, Inline: inl}
 		if !cfg.avoid("repeat:inline") && rapid.IntRange(0, 2).Draw(t, label+"_rep") == 0 {
 			f.Repeat = true
@@ -622,6 +639,33 @@ func (g *genState) anyField(label string, refs []string, depth int) *Field {
 	default:
 		return g.valueField(label, g.fname(label), depth > 0)
 	}
+}
+
+// algName draws the name of the checksum algorithm of a field of type typ: one name per value
+// type (a registered service has one result type), in several spellings (names are case
+// sensitive and not restricted to capitals).
+func (g *genState) algName(label, typ string) string {
+	switch rapid.IntRange(0, 3).Draw(g.t, label+"_algname") {
+	case 0:
+		return "Ck" + typ + "Sum"
+	case 1:
+		return "crc-" + typ
+	}
+	return "CK" + strings.ToUpper(typ)
+}
+
+// typeFromMeta lets a length-of or checksum field take its type from a MetaData entry of its
+// own name (`Name @calculatedFrom("x"),` without a type in front).
+func (g *genState) typeFromMeta(label string, f *Field) {
+	if g.cfg.avoid("meta") || g.cfg.avoid("attr:via") || rapid.IntRange(0, 3).Draw(g.t, label+"_typeless") != 0 {
+		return
+	}
+	if len(g.prog.Metas) == 0 {
+		g.prog.Metas = append(g.prog.Metas, &MetaBlock{Name: g.nm.Name(g.t, label+"_attrblock", ShUpperCamel)})
+	}
+	mb := g.prog.Metas[len(g.prog.Metas)-1]
+	mb.Entries = append(mb.Entries, MetaEntry{Name: f.Name, Kind: KScalar, Type: f.Type, Doc: "t"})
+	f.Via = f.Name
 }
 
 // KKindVia is a pseudo kind used only while drawing.
